@@ -262,6 +262,21 @@ CHECKS = {
         "accepted socket after a set-up fault are left to the garbage collector (not judged).",
         "DESIGN.md 4 C13",
     ),
+    "C18": (
+        "sim",
+        "exploration",
+        "runtime monitoring on a virtual clock: invariant hooks on every socket-map mutation and accept, and an offline "
+        "checker of per-connection timelines (activity, request execution, server-initiated close) against the reaping "
+        "deadlines, over enumerated event histories",
+        "A director drives connect / partial / complete request / large response / client reads / stalls / application "
+        "finishes / clock advances against the real server loop (1 s poll timeout on the virtual clock) for limits 4/5/8, "
+        "timeouts 3/10, cleanup intervals 1/4, 1-2 listeners, 1-2 workers. All histories up to length 4 (quick) / 5 "
+        "(thorough) plus random ones up to 14. Checked: map size <= limit + listeners - 1 at every mutation, no accept at "
+        "the limit, backlog connections admitted within 2.5 s of room, idle connections closed by last activity + "
+        "channel_timeout + cleanup_interval + 2 s, no server-initiated close while a request is queued or executing.",
+        "Liveness as bounded progress on the virtual clock; one open known finding (F-12) is keyed by mechanism.",
+        "DESIGN.md 4 C18",
+    ),
 }
 
 PENDING = {}
